@@ -88,19 +88,26 @@ def rule_window(ctx):
     if len(finds) != 1:
         raise AnalysisError("find_closest: expected exactly one self.find(...) call")
     c = finds[0]
-    sname, ename = norm(c.args[0]), norm(c.args[1])
+    wargs = list(c.args)
+    if len(wargs) == 1 and isinstance(wargs[0], ast.Starred):
+        # find(*window, ...): the two bounds are the elements of the unpacked pair
+        wargs = [ast.copy_location(ast.Subscript(value=wargs[0].value, slice=ast.Constant(value=k_), ctx=ast.Load()), wargs[0]) for k_ in (0, 1)]
+        for w_ in wargs:
+            ast.fix_missing_locations(w_)
+            w_._parent = c
+    if len(wargs) < 2:
+        raise AnalysisError("find_closest: find() is not called with (start, end)")
+    sname, ename = norm(wargs[0]), norm(wargs[1])
     kw = {k.arg: norm(k.value) for k in c.keywords}
     ctx.ob("FileSet.find_closest.filters", kw.get("filters") == flt, "find(%s, %s, %s)" % (sname, ename, kw), "filters=<the caller's filters>", node=c, func=f)
-    if len(c.args) < 2:
-        raise AnalysisError("find_closest: find() is not called with (start, end)")
     cond = "self._sub_dir_time_resolution is None"
     R = "self._sub_dir_time_resolution"
     if not any(R in norm(n) for n in walk_no_nested(f.node) if isinstance(n, (ast.If, ast.IfExp))) and not any(
             isinstance(n, (ast.If, ast.IfExp)) and R in norm(flow.resolve(n.test, at=n)) for n in walk_no_nested(f.node)):
         raise AnalysisError("find_closest: branch on the sub-directory resolution not found")
     env = {ts: "T", R: "R"}
-    sR = flow.resolve_under(c.args[0], {cond: False}, at=c, stop=(ts,))
-    eR = flow.resolve_under(c.args[1], {cond: False}, at=c, stop=(ts,))
+    sR = flow.resolve_under(wargs[0], {cond: False}, at=c, stop=(ts,))
+    eR = flow.resolve_under(wargs[1], {cond: False}, at=c, stop=(ts,))
     try:
         ls = linear_form(sR, env)
         le = linear_form(eR, env)
@@ -108,7 +115,7 @@ def rule_window(ctx):
         raise AnalysisError("find_closest: window expressions not linear in (t, R): %s" % e)
     ctx.ob("FileSet.find_closest.window", ls == {"T": 1, "R": -1} and le == {"T": 1, "R": 1}, "start = %s, end = %s" % (ls, le),
            "start = t - R and end = t + R (symmetric: the nearest file may lie before or after t)", node=c, func=f)
-    nn = {sname: norm(flow.resolve_under(c.args[0], {cond: True}, at=c, stop=(ts,))), ename: norm(flow.resolve_under(c.args[1], {cond: True}, at=c, stop=(ts,)))}
+    nn = {sname: norm(flow.resolve_under(wargs[0], {cond: True}, at=c, stop=(ts,))), ename: norm(flow.resolve_under(wargs[1], {cond: True}, at=c, stop=(ts,)))}
     ctx.ob("FileSet.find_closest.window.all", nn.get(sname) == "datetime.min" and nn.get(ename) == "datetime.max", "without resolution: %s" % nn,
            "the whole time axis", node=c, func=f)
 
@@ -233,8 +240,11 @@ def rule_single(ctx):
             raise AnalysisError("find_closest: the single-file branch does not test self.file_system.isfile(self.path)")
         ok = bool(ab[0]) and norm(ab[0][0]) == "return self.path" and any(isinstance(s, ast.Raise) for s in ab[1]) \
             and not any(isinstance(s, ast.Return) for s in ab[1])
-    none_ret = [st for st in walk_no_nested(f.node) if isinstance(st, ast.If) and norm(st.test).startswith("not ") and len(st.body) == 1
-                and isinstance(st.body[0], ast.Return) and norm(st.body[0].value) == "None"]
+    # an empty candidate list yields None: `if not files` / `if len(files) == 0` (canonically the same test)
+    none_ret = [st for st in walk_no_nested(f.node) if isinstance(st, ast.If) and len(st.body) == 1
+                and isinstance(st.body[0], ast.Return) and norm(st.body[0].value) == "None"
+                and any(norm(st.test) == "not %s" % nm_ or norm(st.test) == "not len(%s)" % nm_ for nm_ in
+                        {n_.id for n_ in ast.walk(st.test) if isinstance(n_, ast.Name)})]
     ctx.ob("FileSet.find_closest.single", ok and bool(none_ret), "first statement: %s; empty-result guard: %s" % (norm(first.test) if isinstance(first, ast.If) else None,
                                                                                                               [norm(s.test) for s in none_ret]),
            "single file -> its path (ValueError if it does not exist); no files in the window -> None", node=first, func=f)
@@ -270,18 +280,14 @@ def rule_dispatch(ctx):
     if len(reads) != 1:
         raise AnalysisError("__getitem__: expected one return that hands the found file to a reader")
     rr = reads[0]
-    none_case = flow.resolve_under(rr.value, {"%s is None" % nm: True}, at=rr, stop=(nm,))
     some_case = flow.resolve_under(rr.value, {"%s is None" % nm: False}, at=rr, stop=(nm,))
     okc = norm(some_case) == "self.read(%s)" % nm
-    if norm(none_case) != "None":
-        # not decided inside the return expression: a guard must have returned None before
-        from ..flow import arms
-        blk = parent(rr)
-        body = next((getattr(blk, fld) for fld in ("body", "orelse") if any(x is rr for x in getattr(blk, fld, []))), [])
-        guards = [(s_, arms(s_, "%s is None" % nm, body)) for s_ in body if isinstance(s_, ast.If)]
-        guards = [(s_, a_) for s_, a_ in guards if a_ is not None]
-        okc = okc and len(guards) == 1 and len(guards[0][1][0]) == 1 and norm(guards[0][1][0][0]) == "return None" \
-            and any(x is rr for x in guards[0][1][1])
+    # with nothing found, no reader is reached: every return that is live then returns None
+    after = [r_ for r_ in flow.stmts if isinstance(r_, ast.Return) and flow._order(r_) > flow._order(st)
+             and any(x is r_ for b_ in [parent(st)] for x in ast.walk(b_))]
+    live_none = [r_ for r_ in after if flow.live_under(r_, {"%s is None" % nm: True}, stop=(nm,))]
+    vals_none = [norm(flow.resolve_under(r_.value, {"%s is None" % nm: True}, at=r_, stop=(nm,))) if r_.value is not None else "None" for r_ in live_none]
+    okc = okc and bool(live_none) and vals_none[0] == "None"
     ctx.ob("FileSet.__getitem__.closest", okc, "%s; then %s" % (norm(st), norm(rr)), "find_closest(time_args, filters=filters); None propagates; otherwise self.read(found)", node=c, func=f)
 
 
